@@ -20,12 +20,13 @@ ASSUMED = [
 TRUSTED = [
     "oracle (C18): the dialect is chosen once - option, then header, then generic - in sql::pq::gen_query::compile_query (unit dialect_select DS1) and everything afterwards "
     "uses that choice. A second reader of the header (`def.other[\"target\"]`) or of the option (`dialect` parameter of translate_query) makes the output depend on HOW the "
-    "dialect was given",
+    "dialect was given; the same holds for the raw option in sql::compile, which may only be handed to translate_query and named in the signature comment (HF.option.sql_compile)",
 ]
 
 SRC_ROOT = "prqlc/prqlc/src"
 ALLOWED_READERS = {"prqlc/prqlc/src/sql/pq/gen_query.rs::compile_query"}
 GEN_QUERY = "prqlc/prqlc/src/sql/gen_query.rs"
+SQL_MOD = "prqlc/prqlc/src/sql/mod.rs"
 
 
 def _enclosing_fn(src, pos):
@@ -65,7 +66,7 @@ def _label(rel, fn):
 def DYNAMIC_LABELS():
     import extract
     rows = _scan(extract.Extractor())
-    return sorted({_label(r, f) for r, f in rows} or {"HF.reader.none"}) + ["HF.option.translate_query"]
+    return sorted({_label(r, f) for r, f in rows} or {"HF.reader.none"}) + ["HF.option.translate_query", "HF.option.sql_compile"]
 
 
 def build(X):
@@ -85,6 +86,19 @@ def build(X):
     if not rows:
         lines.append("// no function reads the header at all: then the header cannot select the dialect (DS1 of dialect_select fails) // @HF.reader.none")
     lines.append("proof fn option_row() { assert(%d == %d); } // @HF.option.translate_query" % (len(uses), passed_on))
+    # the option again: sql::compile binds the raw option (`let crate::Target::Sql(dialect) = options.target;`); it may hand it to translate_query and print it in the
+    # signature comment (documented: the signature names the target the caller asked for) - any other use makes the output depend on the OPTION where the header chose the dialect
+    sc = X.fn(SQL_MOD, "compile")
+    cbody = sc.text.split("{", 1)[1]
+    k_sig = cbody.find("options.signature_comment")
+    cuses = [t for t in code_tokens(cbody) if t[0] == "ident" and cbody[t[1]:t[2]] == "dialect"]
+    binding = len(re.findall(r"let\s+(?:crate::)?Target::Sql\(dialect\)\s*=\s*options\.target\s*;", cbody))
+    handed = len(re.findall(r"translate_query\(\s*query\s*,\s*dialect\s*\)", cbody))
+    in_sig = len([t for t in cuses if k_sig >= 0 and t[1] > k_sig])
+    target_reads = len(re.findall(r"\boptions\.target\b", cbody))
+    sc.rewrites.append({"rule": "table", "what": "uses of the local `dialect` in sql::compile: %d = %d binding + %d argument of translate_query + %d in the signature block; reads of options.target: %d" % (
+        len(cuses), binding, handed, in_sig, target_reads)})
+    lines.append("proof fn option_row_compile() { assert(%d == %d + %d + %d); assert(%d == 1); assert(%d == 1); } // @HF.option.sql_compile" % (len(cuses), binding, handed, in_sig, handed, target_reads))
     lines += ["} // verus!", "fn main() {}", ""]
     return "\n".join(lines)
 
